@@ -35,6 +35,31 @@ SLOT_TABLE = {
 METHOD_MAP = {"cdf": "cdf", "icdf": "ppf", "pdf": "pdf", "draw_sample": "rvs"}
 
 
+def rvs_call(t, dist):
+    """(call term with the full slot tuple as arguments, problem or None) for the value a draw_sample returns.
+
+    A family whose scipy ``rvs`` is the generic one must return ``scipy.rvs(*slots, ...)``.  A family whose scipy ``rvs``
+    post-processes its draws (vonmises wraps loc + draw into [-pi, pi], read from the scipy sources) must NOT hand its
+    location to scipy: the draws follow the family's own cdf only as ``loc + scipy.rvs(shapes, ...)``; that form is turned
+    back into the call with loc at its slot."""
+    from vstat import scipyinfo
+    ov = scipyinfo.rvs_override(dist) if dist else None
+    if ov is None:
+        return t, None
+    sig = scipyinfo.positional_signature(dist)
+    k = sig.index("loc")
+    if t[0] == "bin" and t[1] == "+" and (t[2][0] == "call" or t[3][0] == "call"):
+        call, loc = (t[3], t[2]) if t[3][0] == "call" and not (t[2][0] == "call" and t[2][1][0] == "global" and ".rvs" in t[2][1][1]) else (t[2], t[3])
+        if len(call[2]) == k and "loc" not in dict(call[3]):
+            return ("call", call[1], tuple(call[2]) + (loc,), call[3]), None
+        return call, "the location is added outside AND given to scipy's rvs"
+    if t[0] == "call":
+        if len(t[2]) > k or "loc" in dict(t[3]):
+            return t, (f"scipy.stats.{dist}.rvs post-processes its draws (scipy/stats/_continuous_distns.py:{ov[0]}: {ov[1]}): with a location the sample "
+                       f"does not follow the family's own cdf / icdf, which are only shifted by it; draw without location and add it (loc + rvs(shape, ...))")
+    return t, None
+
+
 def P(n):
     return ("param", n)
 
